@@ -211,7 +211,7 @@ LOOKALIKES += [
 ]
 
 
-def gen_program(seed: int, size: int):
+def gen_program(seed: int, size: int, many=None):
     if seed < 0:
         return LOOKALIKES[(-seed - 1) % len(LOOKALIKES)]
     rng = random.Random(seed)
@@ -220,7 +220,8 @@ def gen_program(seed: int, size: int):
     body = g.block("    ", 0, False)
     if flavour in ("gen", "agen") and "yield" not in body:
         body += "    yield 0\n"
-    if rng.random() < 0.12:
+    draw = rng.random() < 0.12
+    if draw if many is None else many:
         # None is not among the first 256 constants (docstring in slot 0, then 260 distinct constants):
         # EXTENDED_ARG before the LOAD_CONST None of every exit call / await sequence and on long jumps,
         # in combination with whatever block structure the body has
@@ -281,7 +282,10 @@ def make_descs(tier, seed, which, alt=False):
     for k in range(len(LOOKALIKES)):
         descs.append({"src": "gen", "seed": -(k + 1), "size": 0})
     for k in range(ngen):
-        descs.append({"src": "gen", "seed": seed * 1000003 + k, "size": 4 + (k % 9)})
+        # the many-constants shape (+520 code units each: large certificates): every 8th program in quick,
+        # every 30th in thorough, where the sheer number of programs would otherwise dominate the Coq time
+        descs.append({"src": "gen", "seed": seed * 1000003 + k, "size": 4 + (k % 9),
+                      "many": (k % 8 == 3) if tier == "quick" else (k % 30 == 3)})
     proc = None
     if not alt:
         proc = alt_start(tier, seed, which)
@@ -302,7 +306,7 @@ _CACHE = {}
 
 
 def load_code(desc):
-    key = (desc["src"], desc.get("file"), tuple(desc.get("path", ())), desc.get("seed"), desc.get("size"))
+    key = (desc["src"], desc.get("file"), tuple(desc.get("path", ())), desc.get("seed"), desc.get("size"), desc.get("many"))
     if key in _CACHE:
         return _CACHE[key]
     if desc["src"] == "stdlib":
@@ -316,7 +320,7 @@ def load_code(desc):
         co = find(top, desc.get("path", [0]))
         text = desc["text"]
     else:
-        text = gen_program(desc["seed"], desc["size"])
+        text = gen_program(desc["seed"], desc["size"], desc.get("many"))
         top = compile(text, "<gen %d>" % desc["seed"], "exec")
         co = find(top, [0])
     res = (co, text)
